@@ -4,6 +4,7 @@ from vf.props.progbase import ProgProp
 
 class C03(ProgProp):
     id = "C03"
+    use_asm = True
     aspects = ("argval",)
     rule = ("case = (bytecode version, program) from G-PROG (biased to closures where a parameter is a cell, "
             "class bodies, comprehensions, > 255 names/constants) / stdlib sample; for every instruction whose "
